@@ -8,6 +8,7 @@ package rtpdump
 import (
 	"encoding/binary"
 	"errors"
+	"math"
 	"net"
 	"time"
 )
@@ -16,9 +17,17 @@ const (
 	pktHeaderLen = 8
 	headerLen    = 16
 	preambleLen  = 36
+
+	// the record length field is 16 bit and includes the record header.
+	maxPayloadLen = math.MaxUint16 - pktHeaderLen
+	// the record offset field is an unsigned 32 bit count of milliseconds.
+	maxOffsetMilliseconds = time.Duration(math.MaxUint32)
 )
 
-var errMalformed = errors.New("malformed rtpdump")
+var (
+	errMalformed        = errors.New("malformed rtpdump")
+	errNotRepresentable = errors.New("packet cannot be represented in rtpdump format")
+)
 
 // Header is the binary header at the top of the RTPDump file. It contains
 // information about the source and start time of the packet stream included
@@ -88,6 +97,11 @@ type Packet struct {
 
 // Marshal encodes the Packet as binary.
 func (p Packet) Marshal() ([]byte, error) {
+	// refuse what would wrap around in the fixed-width record header.
+	if len(p.Payload) > maxPayloadLen || p.Offset < 0 || p.Offset/time.Millisecond > maxOffsetMilliseconds {
+		return nil, errNotRepresentable
+	}
+
 	packetLength := len(p.Payload)
 	if p.IsRTCP {
 		packetLength = 0
